@@ -205,7 +205,24 @@ impl C06 {
                 }
             }
         }
-        // universal map through a surjection q = f (when f is surjective)
+        // universal map through a surjection q = f (when f is surjective); a quarter of the cases use a
+        // surjection built for the purpose (up to 12 classes, fibres of 1..6 points, shuffled)
+        let built: F;
+        let (f, lf, n) = if r.chance(1, 4) {
+            let k = r.range(1, 12);
+            let mut t: Vec<usize> = (0..k).collect();
+            for c in 0..k {
+                for _ in 0..r.below(6) {
+                    t.push(c);
+                }
+            }
+            r.shuffle(&mut t);
+            ctx.class("universal_through_built_surjection");
+            built = (t, k);
+            (&built, ff(built.0.clone(), built.1), built.0.len())
+        } else {
+            (f, lf, n)
+        };
         let surj = (0..f.1).all(|c| f.0.contains(&c));
         if surj {
             let u: Vec<usize> = if r.chance(1, 2) {
@@ -383,18 +400,37 @@ impl C06 {
             let c2 = af.compose(&asf);
             let c3 = asf.compose(&af);
             let idf = SA::identity(SemifiniteObject::Finite(3));
-            (src_ok, s_ok, c1, c2, c3, idf)
+            // the identity on the (non-finite) set of labels: only a right unit for typing, never composable
+            let ids = SA::identity(SemifiniteObject::Set(std::marker::PhantomData));
+            let ids_ok = matches!(ids, SemifiniteArrow::Identity)
+                && matches!(ids.source(), SemifiniteObject::Set(_))
+                && matches!(ids.target(), SemifiniteObject::Set(_))
+                && af.compose(&ids).is_none()
+                && ids.compose(&af).is_none()
+                && ids.compose(&asf).is_none();
+            let back: Result<SemifiniteFunction<VecKind, String>, ()> = SemifiniteFunction::try_from(SA::from(sf(w.clone())));
+            let back_fin: Result<SemifiniteFunction<VecKind, String>, ()> = SemifiniteFunction::try_from(SA::from(ff(f.0.clone(), f.1)));
+            let try_ok = matches!(&back, Ok(x) if x.0 .0 == w) && back_fin.is_err();
+            let init_ok = <SA as open_hypergraphs::category::Coproduct>::initial_object() == SemifiniteObject::Finite(0);
+            // equality of finite functions compares table and codomain; of label arrays the elements
+            let eq_ok = (ff(f.0.clone(), f.1) == ff(f.0.clone(), f.1))
+                && (ff(f.0.clone(), f.1) != ff(f.0.clone(), f.1 + 1))
+                && (ff(vec![], 2) != ff(vec![], 3))
+                && (g.0 == f.0 && g.1 == f.1) == (ff(f.0.clone(), f.1) == ff(g.0.clone(), g.1))
+                && (sf(w.clone()) == sf(w.clone()))
+                && { let mut w2 = w.clone(); w2.push("extra".into()); sf(w.clone()) != sf(w2) };
+            (src_ok && ids_ok && try_ok && init_ok && eq_ok, s_ok, c1, c2, c3, idf)
         });
         if let Some((src_ok, s_ok, c1, c2, c3, idf)) = res {
             ctx.check(src_ok && s_ok, "SemifiniteArrow/source,target/value/any", || json!({"input": input}));
-            let want1 = if f.1 == g.0.len() { Some(f.0.iter().map(|&i| g.0[i]).collect::<Vec<_>>()) } else { None };
-            let got1 = match &c1 { Some(SemifiniteArrow::Finite(h)) => Some(h.table.0.clone()), _ => None };
+            let want1 = if f.1 == g.0.len() { Some((f.0.iter().map(|&i| g.0[i]).collect::<Vec<_>>(), g.1)) } else { None };
+            let got1 = match &c1 { Some(SemifiniteArrow::Finite(h)) => Some((h.table.0.clone(), h.target)), _ => None };
             ctx.check(got1 == want1 && c1.is_some() == want1.is_some(), "SemifiniteArrow/compose-finite/value/any", || json!({"input": input}));
             let want2 = if f.1 == w.len() { Some(f.0.iter().map(|&i| w[i].clone()).collect::<Vec<_>>()) } else { None };
             let got2 = match &c2 { Some(SemifiniteArrow::Semifinite(h)) => Some(h.0 .0.clone()), _ => None };
             ctx.check(got2 == want2 && c2.is_some() == want2.is_some(), "SemifiniteArrow/compose-semifinite/value/any", || json!({"input": input}));
             ctx.check(c3.is_none(), "SemifiniteArrow/left-operand-must-be-finite/value/any", || json!({"input": input}));
-            ctx.check(matches!(&idf, SemifiniteArrow::Finite(h) if h.table.0 == vec![0, 1, 2]), "SemifiniteArrow/identity/value/any", || json!({"input": input}));
+            ctx.check(matches!(&idf, SemifiniteArrow::Finite(h) if h.table.0 == vec![0, 1, 2] && h.target == 3), "SemifiniteArrow/identity/value/any", || json!({"input": input}));
         }
         ctx.sample("constructors", || input.clone());
     }
